@@ -10,7 +10,7 @@ VARIABLES g, h, accAt
 vars == <<g, h, accAt>>
 
 S1 == "1:a:s"  D1 == "1:b:s"  D2 == "1:c:s"
-Env == [svc |-> [x \in {S1, D1, D2} |-> "available"], h |-> h + 1, bxh |-> "1", unordered |-> UnorderedDst, relay |-> <<>>, rule |-> [c \in {"a", "b", "c"} |-> [bound |-> "happy", unbinding |-> "", cert |-> ""]]]
+Env == [svc |-> [x \in {S1, D1, D2} |-> "available"], h |-> h + 1, bxh |-> "1", unordered |-> UnorderedDst, black |-> {}, relay |-> <<>>, rule |-> [c \in {"a", "b", "c"} |-> [bound |-> "happy", unbinding |-> "", cert |-> ""]]]
 Id(s, d, i) == <<s, d, i>>
 Tx(typ, d, i, T, gid) == [k |-> "ibtp", typ |-> typ, src |-> S1, dst |-> d, idx |-> i, T |-> T, proofok |-> TRUE, id |-> Id(S1, d, i),
                           srcLocal |-> TRUE, dstLocal |-> TRUE, srcChain |-> "a", dstChain |-> IF d = D1 THEN "b" ELSE "c",
